@@ -176,6 +176,19 @@ def _job(version):
                     problem = (problem or '') + ' add() accepted the invalid document'
                 except Exception:   # noqa: BLE001
                     pass
+                if header_fault:
+                    # the same file inside a package directory (resource + README): not a package, not a collection -
+                    # add() of the directory raises as well instead of finding "nothing to add"
+                    pkg = os.path.join(work, 'fpkg')
+                    shutil.rmtree(pkg, ignore_errors=True)
+                    os.makedirs(pkg)
+                    shutil.copy(p, os.path.join(pkg, 'lex.xml'))
+                    open(os.path.join(pkg, 'README.md'), 'w').write('readme\n')
+                    try:
+                        wn.add(pkg, progress_handler=None)
+                        problem = (problem or '') + ' add(package directory) accepted the invalid document'
+                    except Exception:   # noqa: BLE001
+                        pass
                 after = table_dump(wn.config.database_path)
                 if before != after:
                     changed = [k for k in after if after[k] != before.get(k)]
